@@ -52,7 +52,7 @@ pub fn run_c04(cx: &Ctx) -> i32 {
     let texts = space::texts(&alphabet, max_len);
     let tallies = par::run_workers(16, |_w, claimer| {
         engine::quiet_panics();
-        engine::set_sweep_horizons(300_000, 20_000);
+        engine::set_sweep_horizons(40_000, 5_000);
         let mut t = Tally::new();
         space.for_each(claimer, &mut |node, tag| {
             let facts = ast::facts(node);
@@ -120,7 +120,8 @@ pub fn run_c04(cx: &Ctx) -> i32 {
                         mismatch(&mut t, "", 0, "captures_len", rx.captures_len().to_string(), re.captures_len().to_string(), &|r| r.captures_len().to_string());
                     }
                     let rn: Vec<Option<&str>> = rx.capture_names().collect();
-                    let fnames: Vec<Option<&str>> = re.capture_names().collect();
+                    let fnames: Vec<Option<String>> = catch_unwind(AssertUnwindSafe(|| re.capture_names().map(|n| n.map(|s| s.to_string())).collect())).unwrap_or_else(|_| vec![Some("<capture_names panics>".to_string())]);
+                    let rn: Vec<Option<String>> = rn.iter().map(|n| n.map(|s| s.to_string())).collect();
                     if rn != fnames {
                         mismatch(&mut t, "", 0, "capture_names", format!("{:?}", rn), format!("{:?}", fnames), &|r| format!("{:?}", r.capture_names().collect::<Vec<_>>()));
                     }
